@@ -894,6 +894,21 @@ def gen(ctx, emit):
                 emit("recover %s %d %d %d %s" % (tok, 1 + r % 7, r, 1 + (2 * r) % (n - 1), "01"[r & 1]), "shared-base-point")
     for tok in fam[:3]:
         emit("toy_sign %s 2 %d" % (tok, 6), "shared-base-point")
+    # verification of the SAME (Q, z, r, s) on every member in turn: a verdict remembered under the generator *as a tuple*
+    # (functools.lru_cache on a method, a dict keyed by self) is served to another group
+    small = fam[:5]
+    common = {}
+    for tok in small:
+        p_, ca_, cb_ = consts(tok)[:3]
+        for P in cc.curve_points(p_, ca_, cb_):
+            common.setdefault(P, []).append(tok)
+    shared_pts = sorted(P for P, ts in common.items() if len(ts) > 1)
+    for Q in (shared_pts if ctx.thorough else shared_pts[:6]):
+        for z in (1, 2, 5):
+            for r in range(1, 6):
+                for s_ in range(1, 6):
+                    for tok in common[Q]:
+                        emit("verify %s %d,%d %d %d %d" % (tok, Q[0], Q[1], z, r, s_), "shared-base-point")
     chosen = rng.sample(toy, ctx.n(2, 40))
     for tok in chosen:
         p, ca, cb, gx, gy, n = consts(tok)
